@@ -31,6 +31,11 @@ def cases(tier, seed):
         if i % 12 == 9 and i % 8 not in (0, 1):  # integer grouping columns (nonparametric / gaussian only)
             o = dict(int_key=True, district=True, feed_n_unexpected=0, must_aggregates=["district"],
                      estimator=["nonparametric", "gaussian"][(i // 12) % 2])
+        if i % 12 == 3:
+            # several states that reuse the same district labels, groups of very different size: some district groups
+            # hold enough calibration units for a gaussian model of their own, others fall back to their state
+            o = dict(district=True, estimator="gaussian", el_n_states=int(2 + i % 3), el_n_units=int(220 + 10 * (i % 9)),
+                     el_county_size_spread=1.0, must_aggregates=["district"], feed_frac_reporting=0.6)
         if i % 12 == 6:  # dtype variety: the grouping column is a categorical with levels no unit has
             o = dict(cat_key=True, fixed_effects={}, district=bool(i % 24 == 6))
         out.append(dict(seed=seed, i=i, o=o, polls=(3 if i % 5 == 3 else 0), shared_feed=bool(i % 10 == 3)))
